@@ -7,5 +7,6 @@ CONSTANTS
   MaxReplies = 6
   NonceURLs = {TRUE, FALSE}
   InitPools = {0, 1}
+  StopVals = {"zero", "neg"}
 INVARIANTS Emit
 CHECK_DEADLOCK FALSE
